@@ -115,6 +115,23 @@ fn c14_packed_ops() {
     finish("c14_packed_ops", cases, bad);
 }
 
+// C14 (thorough tier: 2^32 additions take about two minutes in a debug build): sums of more than 2^32 terms are exact (an accumulator that is
+// reduced late must not drop bits)
+#[test]
+fn t14_long_sum() {
+    let mut bad = Vec::new();
+    let mut cases = 0usize;
+    let n: u64 = (1u64 << 32) + 2;
+    for (what, word) in [("-1 (canonical)", P - 1), ("the word u64::MAX", u64::MAX)] {
+        cases += 1;
+        let x = F::from_noncanonical_u64(word);
+        let got: F = (0..n).map(|_| x).sum();
+        let want = mulm(word as u128, n as u128);
+        if m(got.0 as u128) != want { bad.push(format!("sum of 2^32 + 2 copies of {what} = {:#x}, expected {:#x}", got.0, want)); }
+    }
+    finish("t14_long_sum", cases, bad);
+}
+
 // C14: every operator returns the exact residue for every representation, and values produced by operators remain usable
 #[test]
 fn c14_base_field_ops() {
@@ -159,6 +176,26 @@ fn c14_base_field_ops() {
     for n in 0..23usize { let xs: Vec<F> = (0..n).map(|i| ops[(i * 7 + 3) % ops.len()]).filter(|x| x.is_nonzero()).collect(); cases += 1;
         let inv = F::batch_multiplicative_inverse(&xs);
         if inv.len() != xs.len() || xs.iter().zip(&inv).any(|(x, i)| mulm(x.0 as u128, i.0 as u128) != 1) { bad.push(format!("batch_multiplicative_inverse on {} elements", xs.len())); } }
+    // the helpers that take a canonical u64 on the right (used by Poseidon and the permutation argument): every representation on the left, every
+    // canonical value of the lattice on the right; and the increment / decrement
+    {
+        let lat = lattice();
+        for &a in &lat { for &b in &lat {
+            let fa = F::from_noncanonical_u64(a);
+            if b < P {
+                cases += 2;
+                let r = unsafe { fa.add_canonical_u64(b) };
+                if m(r.0 as u128) != m(a as u128 + b as u128) { bad.push(format!("add_canonical_u64: F({a:#x}) + {b:#x} = {:#x}", r.0)); }
+                let r = unsafe { fa.sub_canonical_u64(b) };
+                if m(r.0 as u128 + b as u128) != m(a as u128) { bad.push(format!("sub_canonical_u64: F({a:#x}) - {b:#x} = {:#x}", r.0)); }
+            }
+        }
+            cases += 2;
+            let fa = F::from_noncanonical_u64(a);
+            if m(fa.add_one().0 as u128) != m(a as u128 + 1) { bad.push(format!("add_one: F({a:#x}) + 1 = {:#x}", fa.add_one().0)); }
+            if m(fa.sub_one().0 as u128 + 1) != m(a as u128) { bad.push(format!("sub_one: F({a:#x}) - 1 = {:#x}", fa.sub_one().0)); }
+        }
+    }
     finish("c14_base_field_ops", cases, bad);
 }
 
